@@ -69,3 +69,13 @@ val nsync_mu_runlock_cas1_old : coq_Z
 val nsync_mu_runlock_cas2_new : coq_Z -> coq_Z
 
 val nsync_mu_runlock_cas2_guard : coq_Z -> bool
+
+val nsync_mu_semaphore_p_cas1_new : coq_Z -> coq_Z
+
+val nsync_mu_semaphore_p_cas1_guard : coq_Z -> bool
+
+val nsync_mu_semaphore_p_with_deadline_cas1_new : coq_Z -> coq_Z
+
+val nsync_mu_semaphore_p_with_deadline_cas1_guard : coq_Z -> coq_Z -> bool
+
+val nsync_mu_semaphore_v_cas1_new : coq_Z -> coq_Z
